@@ -42,6 +42,10 @@ def build_prop_class(cfg, faults):
         # decorator-with-options form, then the property-style chain; every link rebuilds the descriptor and must
         # carry all options and the accessors attached so far
         p = spec_property(overridable=cfg["overridable"], cache=cfg["cache"])(lambda self: None)
+        if cfg["style"] == "renamed":
+            # the chain starts from a property that already lives under another name on another class
+            # (`prop = Base.other.getter(f)`): the rebuilt descriptor must answer to the name it is stored under
+            type("Elsewhere", (), {"other": p})
         links = [("getter", getter)] + ([("setter", setter)] if cfg["setter"] else []) + ([("deleter", deleter)] if cfg["deleter"] else [])
         if cfg["style"] == "chain_rev":
             links.reverse()
@@ -223,7 +227,7 @@ class C12(Check):
             if src.chance(0.7):
                 cfg = {"mode": "prop", "overridable": src.chance(0.5), "cache": src.chance(0.5), "setter": src.chance(0.5),
                        "deleter": src.chance(0.5), "host": src.choice(HOSTS), "getter": src.choice(["times10"] * 4 + ["tostr"]),
-                       "eager": src.chance(0.6), "style": src.choice(["ctor", "ctor", "chain", "chain_rev"])}
+                       "eager": src.chance(0.6), "style": src.choice(["ctor", "ctor", "chain", "chain_rev", "renamed"])}
             else:
                 cfg = {"mode": "class", "cache": src.chance(0.6), "per_subclass": src.chance(0.5),
                        "overridable": src.chance(0.5), "spec": src.chance(0.4), "csetter": src.chance(0.3),
